@@ -28,20 +28,21 @@ func goid() int {
 }
 
 type scheduler struct {
-	mu        sync.Mutex
-	cond      *sync.Cond
-	r         *rng
-	workers   map[int]int    // goroutine id -> worker index
-	parked    map[int]bool   // worker is waiting to be chosen
-	wantLock  map[int]string // worker is waiting for this key
-	heldBy    map[string]int // key -> worker
-	done      map[int]bool
-	n         int
-	turn      int // worker allowed to run (-1: none)
-	deadlock  bool
-	steps     int
-	schedule  []int
-	broken    bool // locks no longer enforced (after a deadlock was recorded)
+	mu       sync.Mutex
+	cond     *sync.Cond
+	r        *rng
+	workers  map[int]int    // goroutine id -> worker index
+	parked   map[int]bool   // worker is waiting to be chosen
+	wantLock map[int]string // worker is waiting for this key
+	heldBy   map[string]int // key -> worker
+	done     map[int]bool
+	n        int
+	turn     int // worker allowed to run (-1: none)
+	deadlock bool
+	steps    int
+	schedule []int
+	broken   bool // locks no longer enforced (after a deadlock was recorded)
+	leaked   []string
 }
 
 func newScheduler(r *rng, n int) *scheduler {
@@ -160,9 +161,10 @@ func (s *scheduler) finish(w int) {
 		s.turn = -1
 	}
 	// a request that ends while holding locks would block the others forever: release (and let C09 report it)
+	// a lock a finished request still holds stays held: whoever needs it next does not complete
 	for k, h := range s.heldBy {
 		if h == w {
-			delete(s.heldBy, k)
+			s.leaked = append(s.leaked, k)
 		}
 	}
 	s.pickLocked()
@@ -342,6 +344,14 @@ func runConcurrent(in J) interface{} {
 	}
 	sch.mu.Lock()
 	obs["deadlock"] = sch.deadlock
+	sort.Strings(sch.leaked)
+	obs["leaked"] = orEmpty(func() []interface{} {
+		var o []interface{}
+		for _, k := range sch.leaked {
+			o = append(o, k)
+		}
+		return o
+	}())
 	obs["steps"] = sch.steps
 	sch.mu.Unlock()
 	return obs
@@ -368,7 +378,23 @@ func genConcurrent(r *rng, thorough bool, args []string, yield func(in J)) {
 		mk := func(entry, path string, a J) J {
 			return step(entry, "POST", "application/activity+json", path, a)
 		}
-		switch i % 7 {
+		switch i % 8 {
+		case 7: // a rejected request among well-formed ones on the same actor: it leaves no lock behind
+			bad := []J{
+				{"type": "Like", "actor": alice, "object": J{"type": "Note", "content": "no id"}, "to": bob},
+				{"type": "Like", "actor": alice, "object": []interface{}{remote("/notes/o9"), J{"type": "Note", "content": "no id"}}, "to": bob},
+				{"type": "Add", "actor": alice, "object": remote("/notes/8"), "target": local("/notes/1")},
+				{"type": "Update", "actor": alice, "object": local("/notes/1")},
+				{"type": "Delete", "actor": alice, "object": J{"type": "Note", "content": "no id"}},
+			}[(i/8)%5]
+			at := r.intn(k)
+			for j := 0; j < k+1; j++ {
+				if j == at {
+					reqs = append(reqs, mk("postOutbox", "/users/alice/outbox", bad))
+					continue
+				}
+				reqs = append(reqs, mk("postOutbox", "/users/alice/outbox", J{"type": "Like", "actor": alice, "object": remote(fmt.Sprintf("/notes/o%d", j)), "to": bob}))
+			}
 		case 0: // duplicate POSTs of one activity to one inbox
 			a := J{"type": "Like", "id": remote("/activities/dup"), "actor": bob, "object": local("/notes/1"), "to": alice}
 			for j := 0; j < k; j++ {
@@ -419,7 +445,7 @@ func genConcurrent(r *rng, thorough bool, args []string, yield func(in J)) {
 			}
 		}
 		for s := 0; s < scheds; s++ {
-			yield(J{"world": w, "requests": reqs, "schedSeed": 1 + r.intn(1000000), "family": i % 7})
+			yield(J{"world": w, "requests": reqs, "schedSeed": 1 + r.intn(1000000), "family": i % 8})
 		}
 	}
 }
